@@ -763,6 +763,10 @@ func (y yearSerializer) serialize(ctx context.Context, typ sql.Type, value inter
 		return nil, fmt.Errorf("expected int16, but got %T", convertedValue)
 	}
 
+	// MySQL stores the year 0000 as 0 and every other year as an offset from 1900
+	if intValue == 0 {
+		return []byte{0}, nil
+	}
 	return []byte{byte(intValue - 1900)}, nil
 }
 
